@@ -215,21 +215,29 @@ impl<'a, L> Engine<'a, L> {
 
     /// List nodes are only rendered through their parent;
     /// those whose chain of parents loops back on itself (through rdf:first)
-    /// would never be rendered, so one node of each such loop is unmarked.
+    /// would never be rendered, so all the nodes of such a loop are unmarked
+    /// (unmarking only one of them could leave a list whose rdf:rest chain
+    /// runs into an ordinary node, and back into the list).
     fn unmark_unrooted_list_nodes(&mut self) {
         let mut rooted: HashSet<Box<str>> = HashSet::new();
         let ids: Vec<Box<str>> = self.list_node.keys().cloned().collect();
         for id in ids {
-            let mut path: HashSet<Box<str>> = HashSet::new();
+            let mut path: Vec<Box<str>> = Vec::new();
+            let mut on_path: HashSet<Box<str>> = HashSet::new();
             let mut cur = id;
             while !rooted.contains(&cur) {
                 let Some(iparent) = self.list_node.get(&cur) else {
                     break;
                 };
-                if !path.insert(cur.clone()) {
-                    self.list_node.remove(&cur);
+                if !on_path.insert(cur.clone()) {
+                    // the part of the path from `cur` on is a loop
+                    let start = path.iter().position(|x| x == &cur).unwrap();
+                    for looping in &path[start..] {
+                        self.list_node.remove(looping);
+                    }
                     break;
                 }
+                path.push(cur.clone());
                 cur = self.gs_id[*iparent].1.clone();
             }
             rooted.extend(path);
